@@ -3,6 +3,7 @@
 Group 1  the real parser core on *symbolic token classes*: every class sequence of length <= L after '='            (E2)
 Group 2  every alternative of every function's _TOKEN_SETS (read from the real tables) with one symbolic token replaced /
          inserted / deleted at a symbolic position (two appended in the thorough tier)                                  (E2)
+Group 4  accepted argument counts of every supported function against Excel's documented arities (concrete survey)
 Group 3  whitespace placement and ',' / ';' choice: z3-enumerated variants of concrete formulas through the real Lexer and
          translators must give the same emitted code as the canonical spelling (solver as enumerator; stated)           (E2)
 Assertion on every path: AstBuilder.parse raises the library's parser exception, or returns a tree that holds every input
@@ -86,6 +87,45 @@ def _ws_job(fi, timeout):
     return e2.explore(run, timeout=timeout, max_failures=5)
 
 
+# Excel's documented argument counts (min, max, step): an accepted call must have one of these counts
+EXCEL_ARITY = {
+    'ADDRESS': (2, 5, 1), 'AND': (1, 255, 1), 'AVERAGE': (1, 255, 1), 'AVERAGEIFS': (3, 255, 2), 'COLUMN': (0, 1, 1), 'COUNT': (1, 255, 1), 'COUNTBLANK': (1, 1, 1),
+    'COUNTIFS': (2, 254, 2), 'CONCATENATE': (1, 255, 1), 'DAY': (1, 1, 1), 'DATE': (3, 3, 1), 'DATEDIF': (3, 3, 1), 'EDATE': (2, 2, 1), 'EOMONTH': (2, 2, 1), 'IF': (2, 3, 1),
+    'IFERROR': (2, 2, 1), 'INDEX': (2, 4, 1), 'LEFT': (1, 2, 1), 'MATCH': (2, 3, 1), 'MAX': (1, 255, 1), 'MID': (3, 3, 1), 'MIN': (1, 255, 1), 'MONTH': (1, 1, 1),
+    'NETWORKDAYS': (2, 3, 1), 'OR': (1, 255, 1), 'RIGHT': (1, 2, 1), 'ROUND': (2, 2, 1), 'ROUNDUP': (2, 2, 1), 'ROUNDDOWN': (2, 2, 1), 'SEARCH': (2, 3, 1), 'SUM': (1, 255, 1),
+    'SUMIF': (2, 3, 1), 'SUMIFS': (3, 255, 2), 'TODAY': (0, 0, 1), 'VLOOKUP': (3, 4, 1), 'XMATCH': (2, 4, 1), 'YEAR': (1, 1, 1), 'IFS': (2, 254, 2), 'TEXT': (2, 2, 1), 'VALUE': (1, 1, 1),
+}
+
+
+def arity_survey():
+    """which argument counts does the real grammar accept for each supported function (concrete: a few argument-kind patterns per count)"""
+    from excel2pycl.src.exceptions import E2PyclException
+    from harness.c01 import translate_one
+    T, LEX, IDX = pc.tables()
+    from excel2pycl.src.tokens.regexp_base_token import KeywordRegexpBaseToken
+    out = {}
+    for kw in KeywordRegexpBaseToken.subclasses():
+        f = kw.regexp
+        acc = set()
+        for n in range(0, 8):
+            pats = {tuple(['1'] * n), tuple(['A1:B2'] * n), tuple(['A1:B2'] + ['1'] * (n - 1)) if n else (), tuple(['A1:B2', 'A1:B2'] + ['1'] * (n - 2)) if n > 1 else (),
+                    tuple(['1', 'A1:B2'] + ['1'] * (n - 2)) if n > 1 else (), tuple((['A1:B2', '">1"'] * 4)[:n]), tuple((['A1:B2'] + ['A1:B2', '">1"'] * 4)[:n])}
+            for pat in pats:
+                if len(pat) != n:
+                    continue
+                try:
+                    translate_one(f'={f}({",".join(pat)})')
+                    acc.add(n)
+                    break
+                except E2PyclException:
+                    pass
+                except Exception:
+                    acc.add(n)          # accepted by the grammar (the translator failed later)
+                    break
+        out[f] = sorted(acc)
+    return out
+
+
 def run(report, tier, seed):
     t0 = time.time()
     T, LEX, IDX = pc.tables()
@@ -105,6 +145,28 @@ def run(report, tier, seed):
         jobs.append((f'ws_{fi}', _ws_job, (fi, to)))
     res = e2.run_jobs(jobs, NCPU, deadline=to * 2 + 120)
     handle(report, res, 'C05', ('truncated', 'none', 'foreign_tokens', 'foreign'))
+    # group 4: accepted argument counts against Excel's documented ones (concrete survey through the real lexer/parser)
+    surv = e2.run_jobs([('arity', arity_survey, ())], 1, deadline=600)['arity']
+    kfs = findings.for_property('C05')
+    if isinstance(surv, dict) and 'error' not in surv:
+        for f, counts in sorted(surv.items()):
+            lo, hi, step = EXCEL_ARITY.get(f, (0, 255, 1))
+            extra = [n for n in counts if not (lo <= n <= hi and (n - lo) % step == 0)]
+            unknown = [n for n in extra if not any(e.get('arity') == [f, n] for e in kfs)]
+            for n in extra:
+                for e in kfs:
+                    if e.get('arity') == [f, n]:
+                        report.condition(f'arity.{f}#{n}', 'concrete', 'known', detail=e.get('what', ''))
+                        report.known_finding(f'{f} is accepted with {n} argument(s); Excel defines {lo}..{hi}' + (f' step {step}' if step > 1 else '') + f' :: {e.get("what", "")}', key=e.get('what'))
+            if f not in EXCEL_ARITY:
+                report.condition(f'arity.{f}', 'concrete', 'inconclusive', detail='no documented arity in the oracle table for this keyword')
+            elif unknown:
+                report.condition(f'arity.{f}', 'concrete', 'violated', detail=f'accepted with {unknown} argument(s); Excel defines {lo}..{hi} step {step}')
+                report.violation(f'arity.{f}', f'={f}(' + ','.join(['1'] * unknown[0]) + ')', f'{f} is accepted with {unknown[0]} argument(s), which Excel does not define ({lo}..{hi}' + (f' step {step})' if step > 1 else ')'))
+            else:
+                report.condition(f'arity.{f}', 'concrete', 'holds', detail=f'accepted argument counts {counts}')
+    else:
+        report.condition('arity.survey', 'concrete', 'inconclusive', detail=str(surv)[:200])
     report.extra['function_alternatives'] = len(inst)
     report.extra['lexical_classes'] = N
     report.encoded('AstBuilder.parse', 'EntryPointToken.get', 'CompositeBaseToken.get', 'RecursiveCompositeBaseToken.get_token_sets', 'every *_TOKEN_SETS table',
